@@ -38,6 +38,7 @@ def grouping(ses, rep):
     ex = ses.executor("lib", "default", hooks=[hook], inline=lambda n, f: False)
     ex.max_block_visits = 3
     ex.max_paths = 20000
+    ex.stateful_next = True
     T = ex.enums
     fn = ses.need(ex, "partition_nodes_into_groups")
     outs = ex.run(fn, [RefV(ex.fresh_lazy("Block", "block"))])
@@ -53,6 +54,26 @@ def grouping(ses, rep):
         if not ses.reachable(list(o.pc) + [ex.discr(st, kd) == 1]):
             continue            # not a require statement on this path
         n += 1
+        # membership: only `local ONE_NAME = ONE_VALUE` is a group member (the path must have established both counts)
+        from . import c02
+        P = c02.Prov(ex, o)
+        hv = [t for t in o.trace if t[0] == "havoc"]
+        for acc in ("names", "expressions"):
+            srcs = {t[3].oid for t in hv if t[1].split("::")[-1] == acc and isinstance(t[3], Lazy)}
+            ev = []
+            for t in hv:
+                last = t[1].split("::")[-1]
+                a0 = (t[4] if len(t) > 4 else t[2])[0] if (t[4] if len(t) > 4 else t[2]) else None
+                if last == "len" and isinstance(t[3], Sym) and srcs & P.of(a0):
+                    ev.append(t[3].t == z3.BitVecVal(1, 64))
+            nx = [t for t in hv if t[1].split("::")[-1] == "next" and (t[4] if len(t) > 4 else t[2]) and srcs & P.of((t[4] if len(t) > 4 else t[2])[0])]
+            if len(nx) >= 2:
+                ev.append(z3.And(ex.discr(st, nx[0][3]) == 1, ex.discr(st, nx[1][3]) == 0))
+            bad = z3.BoolVal(True) if not ev else z3.Not(z3.Or(ev))
+            oid = f"grouping/path{pi}/member-has-exactly-one-of-{acc}"
+            r, m = ses.obligation(oid, list(o.pc) + [ex.discr(st, kd) == 1], bad, f"a statement is classified as a require only after {acc}() was found to hold exactly one element")
+            if r == "sat":
+                flagged.append((oid, f"a local with several {acc} can become a member of a require group", "members-count", {}))
         lasts = find_calls(o.trace, lambda x: re.search(r"impl \[BlockPartition\]>::last$", x) is not None)
         lines = find_calls(o.trace, lambda x: x.endswith("Position::line"))
         ends = find_calls(o.trace, lambda x: x.endswith("as Node>::end_position") or x.endswith("::end_position"))
@@ -98,6 +119,25 @@ def grouping(ses, rep):
     return flagged
 
 
+def local_helpers(ex):
+    """in-crate functions sort_requires calls directly (a refactoring may move the ignore test or the trivia swap into one)"""
+    fn = [f for f in ex.funcs.get("sort_requires", [])]
+    import os
+    src = open(os.path.join(common.REPO, "src/sort_requires.rs")).read().split("#[cfg(test)]")[0]
+    names = set(re.findall(r"\bfn\s+(\w+)", src))
+    out = []
+    for f in fn:
+        for sts in f.blocks.values():
+            for s_ in sts:
+                if s_[0] == "call":
+                    g = ex.resolve(s_[2])
+                    if g is not None and "{closure" not in g.name and len(g.blocks) <= 40 and g.name not in ("partition_nodes_into_groups",) \
+                            and g.name.split("::")[-1] in names and "<impl" not in g.name \
+                            and not re.search(r"(^|::)(format_|update_|check_toggle_formatting|should_format_node)", g.name) and g not in out:
+                        out.append(g)
+    return out
+
+
 def ignore_guard(ses, rep):
     """the closure handed to `any` in sort_requires"""
     flagged = []
@@ -106,7 +146,7 @@ def ignore_guard(ses, rep):
     T = ex.enums
     fn = ses.need(ex, "sort_requires")
     clos = None
-    for bb, sts in fn.blocks.items():
+    for bb, sts in [x for g_ in [fn] + local_helpers(ex) for x in g_.blocks.items()]:
         for s_ in sts:
             if s_[0] == "call" and re.search(r"as Iterator>::any::<", s_[2]):
                 cm = re.search(r"any::<(\{closure@[^}]*\})>", s_[2])
@@ -143,6 +183,8 @@ def ignore_guard(ses, rep):
 def rebuild_step(ses, rep):
     flagged = []
     ex = ses.executor("lib", "default", inline=lambda n, f: False)
+    helpers = local_helpers(ex)
+    ex.inline = lambda n, f: any(f is g for g in helpers)
     T = ex.enums
     fn = ses.need(ex, "sort_requires")
     part = ex.fresh_lazy("BlockPartition", "part")
@@ -240,7 +282,10 @@ def region_tracking(ses, rep):
     (b) the guard's should_format_node runs on a toggled context, not on the context sort_requires was given."""
     flagged = []
     funcs = ses.mir("lib", "default")
-    own = [f for n_, l in funcs.items() for f in l if n_ == "sort_requires" or n_.startswith("sort_requires::{closure")]
+    ex0 = ses.executor("lib", "default", inline=lambda n, f: False)
+    hs = {g.name for g in local_helpers(ex0)}
+    own = [f for n_, l in funcs.items() for f in l if n_ == "sort_requires" or n_.startswith("sort_requires::{closure") or n_ in hs
+           or any(n_.startswith(h_ + "::{closure") for h_ in hs)]
     togglers = [f for f in own if any(s_[0] == "call" and canon(s_[2]).endswith("check_toggle_formatting") for sts in f.blocks.values() for s_ in sts)]
     member_ty = re.compile(r"\(std::string::String, \(Stmt, std::option::Option<TokenReference>\)\)")
     on_members = [f for f in togglers if any(member_ty.search(t) for _, t in f.params) or f.name == "sort_requires"]
@@ -249,6 +294,23 @@ def region_tracking(ses, rep):
     if r == "sat":
         flagged.append(("region/contexts-are-toggled-over-the-top-level-statements", "sort_requires never toggles the ignore state: a group inside "
                         "`-- stylua: ignore start` .. `end` is sorted", "region", {}))
+    # (c) the toggled state outlives the group: a closure that toggles over group members stores the new context into a variable it captured
+    # from sort_requires (a write through its environment `_1`), not into state private to the iterator adaptor (`scan`'s accumulator)
+    for f in togglers:
+        if "{closure" not in f.name or not any(member_ty.search(t) for _, t in f.params):
+            continue
+        envptrs = {"_1"}
+        for sts in f.blocks.values():
+            for s_ in sts:      # `_7 = copy ((*_1).0: &mut Context)`: a captured mutable reference copied into a temporary
+                if s_[0] == "assign" and not s_[1].proj and isinstance(s_[2], tuple) and s_[2][0] == "use" and isinstance(s_[2][1], tuple) \
+                        and len(s_[2][1]) > 1 and hasattr(s_[2][1][1], "local") and s_[2][1][1].local == "_1" and s_[2][1][1].proj:
+                    envptrs.add(s_[1].local)
+        writes_env = any(s_[0] == "assign" and s_[1].local in envptrs and any(pr[0] == "deref" for pr in s_[1].proj) for sts in f.blocks.values() for s_ in sts)
+        r, m = ses.obligation(f"region/{f.name}/toggled-context-is-stored-in-a-captured-variable", [], z3.BoolVal(not writes_env),
+                              "the context toggled at a group member is written back to sort_requires' own variable")
+        if r == "sat":
+            flagged.append((f"region/{f.name}/toggled-context-is-stored-in-a-captured-variable", "the ignore state toggled inside a require group is kept in "
+                            "iterator-private state: a region opened (or closed) at a group member does not reach the following statements", "region", {}))
     return flagged
 
 
@@ -292,6 +354,12 @@ BATTERY = [
      "-- stylua: ignore start\nlocal   v   =   1\n\n" + R("b") + R("a") + "-- stylua: ignore end\nlocal w = 2\n"),
     ("ignore-region-closed-before", "-- stylua: ignore start\nlocal   v   =   1\n-- stylua: ignore end\n\n" + R("b") + R("a"), ["--sort-requires"],
      "-- stylua: ignore start\nlocal   v   =   1\n-- stylua: ignore end\n\n" + R("a") + R("b")),
+    ("ignore-region-opened-at-a-member", R("c") + "-- stylua: ignore start\n" + R("b") + "\n" + 'local z   = require("z")\nlocal y   = require("y")\n-- stylua: ignore end\n' + R("k") + R("j"),
+     ["--sort-requires"], R("c") + "-- stylua: ignore start\n" + R("b") + "\n" + 'local z   = require("z")\nlocal y   = require("y")\n-- stylua: ignore end\n' + R("j") + R("k")),
+    ("ignore-region-closed-at-a-member", "-- stylua: ignore start\nprint(  1  )\n-- stylua: ignore end\n" + R("p") + "\n" + R("z") + R("y"), ["--sort-requires"],
+     "-- stylua: ignore start\nprint(  1  )\n-- stylua: ignore end\n" + R("p") + "\n" + R("y") + R("z")),
+    ("multi-name-local", R("c") + 'local b, a = require("b")\n' + R("a") + "print(a, b, c)\n", ["--sort-requires"], R("c") + 'local b, a = require("b")\n' + R("a") + "print(a, b, c)\n"),
+    ("multi-value-local", R("c") + 'local b = require("b"), 2\n' + R("a"), ["--sort-requires"], R("c") + 'local b = require("b"), 2\n' + R("a")),
     ("wrapped-require", 'local c = require(\n\t"c"\n)\n' + R("b") + R("a"), ["--sort-requires"], R("a") + R("b") + R("c")),
     ("out-of-range-group", R("b") + R("a") + "local v   =   1\n", ["--sort-requires", "--range-start", "46"], R("b") + R("a") + "local v = 1\n"),
     ("partly-in-range-group", R("b") + R("a") + "local v   =   1\n", ["--sort-requires", "--range-start", "30"], R("b") + R("a") + "local v = 1\n"),
@@ -304,7 +372,7 @@ BATTERY = [
      'local B = require("y")\nlocal a = require("x")\nlocal a = require("z")\n'),
 ]
 TRIVIA = ("comment-on-moved-member", R("b") + "--[[c]] " + R("a"), ["--sort-requires"], "--[[c]]")
-KIND2SCEN = {"region": ["ignore-region", "ignore-region-opened-earlier", "ignore-region-closed-before"], "grouping": ["blank-line-splits", "statement-splits", "kinds-do-not-merge", "wrapped-require", "sorted", "blank-line-with-spaces", "blank-line-crlf"],
+KIND2SCEN = {"members-count": ["multi-name-local", "multi-value-local"], "region": ["ignore-region", "ignore-region-opened-earlier", "ignore-region-closed-before", "ignore-region-opened-at-a-member", "ignore-region-closed-at-a-member"], "grouping": ["blank-line-splits", "statement-splits", "kinds-do-not-merge", "wrapped-require", "sorted", "blank-line-with-spaces", "blank-line-crlf"],
              "members": ["semicolon-comments", "sorted", "stable-duplicates"],
              "guard": ["ignored-member", "ignored-second-member", "ignored-last-member", "out-of-range-group", "partly-in-range-group"], "sort": ["sorted", "stable-duplicates", "blank-line-splits"],
              "enabled": ["off", "sorted"]}
